@@ -33,7 +33,9 @@ INTS = [0, 1, 2, 3, 5, 10, -1, 1500, 9007199254740993, 123456789012345678901]
 STRS = ['abc', 'John Q', 'x', '', 'a=b; c', 'Zoe~', '(paren', 'back\\slash', '1040', 'Where St #12', '#4B', 'x ;y', '; z',
         'line one\nline two', 'a\n\nb after an empty line', 'form\x0cfeed', 'vt\x0btab',
         # several rows that each look like a line of their own ("label: amount", "label = amount", "[x]")
-        'CASDI: 61.20\nRSU: 500.00\nDUES = 12', 'see\n[w]\nnote: 1']
+        'CASDI: 61.20\nRSU: 500.00\nDUES = 12', 'see\n[w]\nnote: 1',
+        # dollar signs (another interpolation syntax gives them a meaning)
+        'Ca$h & Carry', 'NC SDI $12.40', '${x}', '$']
 REGEX_OK = ['ab1', 'cc9', 'ba0']
 SSNS = [('123-45-6789', '123456789'), ('987654321', '987654321'), ('000-00-0001', '000000001')]
 TRUE_TXT = ['yes', 'y', 'true', '1', 'on', 'Yes', 'TRUE']
@@ -133,6 +135,9 @@ class Gen(object):
             if kind == 'form':
                 nreq = rng.weighted([(1, 2), (2, 3), (3, 3), (4, 2), (5, 1)])
                 nopt = rng.weighted([(0, 3), (1, 3), (2, 2), (3, 1), (4, 1)])
+                if k > 0 and rng.chance(0.12):
+                    # a worksheet: nothing in it is required, its lines exist only for whoever reads them
+                    nreq, nopt = 0, max(nopt, 1)
                 lnames = rng.sample(LINE_NAMES, nreq + nopt)
                 for j, ln in enumerate(lnames):
                     t = rng.weighted(LINE_TYPE_W)
@@ -576,6 +581,11 @@ def gen_case(seed, force_faults=None, clean=None, defaults=False, percent=False)
     requested = [req_name(forms[0])]
     if len(forms) > 1 and r_q.chance(0.3):
         requested.append(req_name(r_q.pick(forms[1:])))
+    worksheets = [f for f in forms[1:] if f['kind'] == 'form' and not f['required']]
+    if worksheets and r_q.chance(0.5):
+        w_ = req_name(r_q.pick(worksheets))
+        if w_ not in requested:
+            requested.insert(r_q.pick([0, len(requested)]), w_)
     if r_q.chance(0.15):
         requested = [req_name(r_q.pick(forms))]
     for rn in list(requested):
@@ -663,7 +673,8 @@ def file_text(case_or_items, layout=None, names=None):
     if isinstance(case_or_items, dict):
         case = case_or_items
         names = case['file'] if names is None else names
-        items = [(n, case['persona'][n]['text'].replace('%', '%%')) for n in names]
+        items = [(n, case['persona'][n]['text'] if case['persona'][n].get('raw') else case['persona'][n]['text'].replace('%', '%%'))
+                 for n in names]
         layout = case.get('layout') if layout is None else layout
         for sec, key, txt in case.get('noise') or []:
             items.append((f'{sec}.{key}', txt))
